@@ -634,7 +634,14 @@ impl Monitor for PayMonitor {
 					if dl - ch <= 3 {
 						v.rep.count("c08_d2_claims_within_three_blocks_of_the_deadline");
 					}
-					if n_ful != phases.len() {
+					// (known finding F25 has its own signature: the peer that offered the HTLC restarted from a stored manager
+					// and its channel stopped moving; every other way of not settling a claimed payment keeps the plain one)
+					let peer_restarted = r.claimable_set.iter().any(|i| self.restarted.contains(&self.hs[*i].from));
+					if n_ful != phases.len() && peer_restarted {
+						v.rep.count("c04_i2_unsettled_claims_with_a_restarted_offering_peer");
+						v.violation("C04", "I2-claim-window", "claim_funds was called below the claim deadline but not every part was fulfilled, the peer that offered the HTLC having restarted from a stored ChannelManager since", format!("node{} reg {}: {} of {} parts fulfilled (claim height {}, deadline {})", reg.dst, ri, n_ful, phases.len(), ch, dl));
+						v.violation("C08", "D2-claim-below-deadline", "a payment could not be claimed at a height strictly below its advertised claim deadline, the peer that offered the HTLC having restarted from a stored ChannelManager since", format!("node{} reg {}: {} of {} parts fulfilled (claim height {}, deadline {})", reg.dst, ri, n_ful, phases.len(), ch, dl));
+					} else if n_ful != phases.len() {
 						v.violation("C04", "I2-claim-window", "claim_funds was called below the claim deadline but not every part was fulfilled", format!("node{} reg {}: {} of {} parts fulfilled (claim height {}, deadline {})", reg.dst, ri, n_ful, phases.len(), ch, dl));
 						v.violation("C08", "D2-claim-below-deadline", "a payment could not be claimed at a height strictly below its advertised claim deadline", format!("node{} reg {}: {} of {} parts fulfilled (claim height {}, deadline {})", reg.dst, ri, n_ful, phases.len(), ch, dl));
 					} else if r.claimed_events == 0 {
